@@ -566,6 +566,35 @@ def _native_reopen(tier="quick", seed=0):
         except Exception as e:
             bad = bad or "%s.%s = %r raised %r" % (type(obj).__name__, attr, v, e)
     rec("C09.native.out_of_domain_rejected", bad is None, bad)
+    # colour: rgb / theme colour and brightness are independent once the colour kind is fixed, in either order
+    bad = None
+    from pptx.enum.dml import MSO_THEME_COLOR
+
+    for bright in (-0.25, 0.4):
+        prs2 = Presentation()
+        sl2 = prs2.slides.add_slide(prs2.slide_layouts[6])
+        shp = sl2.shapes.add_shape(1, 0, 0, 100, 100)
+        shp.fill.solid()
+        targets = [("fill", shp.fill.fore_color), ("line", shp.line.color)]
+        shp.line.fill.solid() if hasattr(shp.line, "fill") else None
+        r = shp.text_frame.paragraphs[0].add_run()
+        r.text = "x"
+        targets.append(("font", r.font.color))
+        for nm, col in targets:
+            evals += 1
+            col.rgb = RGBColor(10, 20, 30)
+            col.brightness = bright
+            col.rgb = RGBColor(40, 50, 60)
+            if abs(col.brightness - bright) > 1e-9 or col.rgb != RGBColor(40, 50, 60):
+                bad = bad or "%s colour: rgb=A; brightness=%s; rgb=B -> brightness reads %r, rgb %r" % (nm, bright, col.brightness, col.rgb)
+            col.theme_color = MSO_THEME_COLOR.ACCENT_1
+            col.brightness = bright
+            col.theme_color = MSO_THEME_COLOR.ACCENT_2
+            if abs(col.brightness - bright) > 1e-9 or col.theme_color != MSO_THEME_COLOR.ACCENT_2:
+                bad = bad or "%s colour: theme=A; brightness=%s; theme=B -> brightness reads %r" % (nm, bright, col.brightness)
+        buf2 = io.BytesIO()
+        prs2.save(buf2)
+    rec("C09.native.colour_value_and_brightness_independent", bad is None, bad)
     return {"contract": "C09.native_reopen", "prop": "C09", "status": "ok", "obligations": obls, "paths": 0, "assumed": [], "functions": {}, "notes": [],
             "solver_s": 0.0, "wall_s": _t.time() - t0,
             "bounded": {"name": "C09.native_reopen", "bound": "22 public properties of shape/font/paragraph/text frame/line/presentation with one value each, "
@@ -574,3 +603,54 @@ def _native_reopen(tier="quick", seed=0):
 
 
 JOBS = {"C09.native_reopen": _native_reopen}
+
+
+# --------------------------------------------------------------------------------------------
+# ColorFormat: assigning the colour value leaves the brightness adjustment alone (and vice versa) once the kind is fixed
+
+
+def _replay_colour(model, rec_):
+    r = _native_reopen(tier="quick", seed=0)
+    bad = [o for o in r["obligations"] if o["status"] == "refuted" and "colour" in o["name"]]
+    if bad:
+        return {"confirmed": True, "witness_class": "colour-frame", "detail": bad[0]["replay"]["detail"]}
+    return {"confirmed": False, "detail": "rgb / theme colour assignments keep the brightness on fill, line and font colours"}
+
+
+@contract("C09", "C09.dml.color.ColorFormat.rgb.fset[already RGB]", replay=_replay_colour)
+def _rgb_frame(c):
+    """on a colour that already is an RGB colour: only a:srgbClr/@val is written (with the new value); the fill's colour choice
+    is not re-created and the lumMod / lumOff children carrying the brightness are not touched."""
+    from pptx.dml.color import ColorFormat, RGBColor, _SRgbColor
+
+    writes = []
+
+    class _Srgb:
+        __pyvc_symbolic__ = True
+
+        def sym_setattr(self, it, name, v):
+            writes.append(("set", name, v))
+
+        def sym_getattr(self, it, name):
+            writes.append(("call", name))
+            return GhostFn(lambda i2, a, k: self, name)
+
+    xfill_calls = []
+    srgb = _Srgb()
+    color = SObj(_SRgbColor, "color", _xClr=srgb, _srgbClr=srgb)
+
+    class _XFill:
+        __pyvc_symbolic__ = True
+
+        def sym_getattr(self, it, name):
+            xfill_calls.append(name)
+            return GhostFn(lambda i2, a, k: srgb, name)
+
+    cf = SObj(ColorFormat, "color_format", _color=color, _xFill=_XFill())
+    out = c.setattr(cf, "rgb", RGBColor(1, 2, 3))
+    if out.raised:
+        c.fails("never_raises", "raised %s" % out.exc)
+        return
+    c.ensures("frame.colour_choice_not_recreated", not xfill_calls)
+    c.ensures("post.only_val_is_written", writes == [("set", "val", "010203")])
+    c.ensures("frame.same_colour_object", cf.fields["_color"] is color)
